@@ -521,9 +521,14 @@ def _run_edited(case):
                 yield ("replace-by-nonfuzzy", x, base[0])
                 yield ("replace-by-fuzzy", x, base[0])
         yield ("add-consumer-of-missing", "NoSuchResult")
+        yield ("nothing",)
+
+    GOOD = "A,B\n10,5\n8,-9999\n7,3\n5,10\n2,8\n"
 
     def apply(p, e):
         lib = p.command_library
+        if e[0] == "nothing":
+            return
         if e[0] == "del":
             del p.commands[e[1]]
         elif e[0] == "replace-by-nonfuzzy":
@@ -553,7 +558,7 @@ def _run_edited(case):
         return out, executed, new_files
 
     try:
-        for first in ("run", "run-rejected", "none"):
+        for first in ("run", "run-rejected", "run-failed-on-data", "none"):
             for e in edits():
                 # fresh: edit before the first run
                 pf = Program.from_source(text, libraries=CSV, working_dir=work)
@@ -570,6 +575,13 @@ def _run_edited(case):
                     ph.add_command(ph.command_library["Copy"], "Tmp", {"InFieldName": "NotThere"})
                     run_it(ph)
                     del ph.commands["Tmp"]
+                elif first == "run-failed-on-data":
+                    # a run that fails for a reason OUTSIDE the model (non-numeric cells in the data file), then the file is repaired
+                    with open(os.path.join(work, "input.csv"), "w") as f:
+                        f.write(GOOD.replace("8,-9999", "n/a,x"))
+                    run_it(ph)
+                    with open(os.path.join(work, "input.csv"), "w") as f:
+                        f.write(GOOD)
                 apply(ph, e)
                 got, executed, new_files = run_it(ph)
                 evals += 2
